@@ -36,3 +36,20 @@ for fq, c in votes.items():
     out["global"][fq] = [local, stmt]
 json.dump(out, open(os.path.join(V, "sa", "import_spellings.json"), "w"), indent=1, sort_keys=True)
 print(len(out["modules"]), "modules;", len(out["global"]), "names")
+
+# module-level names of the reviewed tree (sa/known_constants.json): a module-level literal constant that is NOT in this list
+# is new, and is inlined at its uses by sa/normalise.py::inline_new_constants
+names = {}
+for dp, dn, fns in os.walk(os.path.join(REPO, "tradingenv")):
+    dn[:] = sorted(d for d in dn if d != "__pycache__")
+    for fn in sorted(fns):
+        if fn.endswith(".py"):
+            p = os.path.join(dp, fn)
+            t = ast.parse(open(p, "rb").read())
+            s_ = set()
+            for st in t.body:
+                if isinstance(st, (ast.Assign, ast.AnnAssign)):
+                    for tg in (st.targets if isinstance(st, ast.Assign) else [st.target]):
+                        s_ |= {n.id for n in ast.walk(tg) if isinstance(n, ast.Name)}
+            names[os.path.relpath(p, REPO)] = sorted(s_)
+json.dump(names, open(os.path.join(V, "sa", "known_constants.json"), "w"), indent=1, sort_keys=True)
